@@ -1,6 +1,9 @@
 #!/venv/bin/python
 """C17 findings in asyncssh/misc.py OptionsParser (authorized_keys / allowed_signers option field).
 
+STATUS: both were repaired in /repo by the coordinator (fix commits 770f75a and 104f55e); on the repaired tree this
+script prints "not reproduced"/"ok" and exits 0.  It reproduces on the pinned tree before those commits.
+
 Run:  cd /tmp && PYTHONPATH=/repo /venv/bin/python /verif/notes/findings/c17_options_parser.py
 
 F-C17-1  _add_option: a bare keyword followed by the same keyword with a value ("x,x=1") makes
